@@ -11,6 +11,7 @@ import (
 
 	"github.com/tychoish/fun"
 	"github.com/tychoish/fun/adt"
+	"github.com/tychoish/fun/ers"
 	"github.com/tychoish/fun/risky"
 )
 
@@ -189,6 +190,9 @@ func (b *Broker[T]) startQueueWorkers(ctx context.Context, dist Distributor[T]) 
 			defer b.wg.Done()
 			for {
 				msg, err := dist.Receive(ctx)
+				if errors.Is(err, ers.ErrCurrentOpSkip) {
+					continue
+				}
 				if err != nil {
 					return
 				}
